@@ -29,6 +29,7 @@ def run(ctx):
     ctx.run_rule("G1", r_globals.rule_G1, cfgs)
     ctx.run_rule("S3", r_state.rule_S3, cfgs)
     ctx.run_rule("W1", r_globals.rule_W1, cfgs)
+    ctx.run_rule("AB", r_globals.rule_AB, cfgs)
     import r_io
     # update_mmap_rayon is one of the property's entry points: mapping => update_rayon(&*mmap), otherwise copy_wide from a rewound file
     ctx.run_rule("I3", r_io.rule_I3, [c for c in cfgs if c.endswith("-full")])
